@@ -307,3 +307,23 @@ Proof.
   assert (0 < 2 ^ k) by (apply Z.pow_pos_nonneg; lia).
   split; [exact EH|]. split; [exact EW|]. split; nia.
 Qed.
+
+(** * 4. default block sizes and source blocks *)
+
+Lemma default_blocksize_pos chunks :
+  1 <= fst chunks -> 1 <= snd chunks ->
+  default_blocksize chunks <> [] /\ Forall blk_pos (default_blocksize chunks).
+Proof.
+  intros A B. unfold default_blocksize. split; [discriminate|].
+  repeat constructor; simpl; lia.
+Qed.
+
+Lemma nblocks_spec dim tile y :
+  0 < tile -> 1 <= dim -> 0 <= y ->
+  (y < nblocks dim tile -> y * tile < dim) /\ (nblocks dim tile <= y -> dim <= y * tile).
+Proof.
+  intros Ht Hd Hy. unfold nblocks.
+  pose proof (Z.div_mod (dim + tile - 1) tile ltac:(lia)) as D.
+  pose proof (Z.mod_pos_bound (dim + tile - 1) tile Ht) as B.
+  split; intros H; nia.
+Qed.
